@@ -70,6 +70,15 @@ PRODUCES = {"kmeans_fit": "km", "gmm_ml_fit": "gmm", "gmm_map_fit": "map", "isv_
             "jfa_fit": "jfa", "iv_fit": "iv", "isv_fit_array": "isv", "jfa_fit_array": "jfa",
             "wccn_fit": "lin", "whitening_fit": "lin", "isv_enroll": "z_isv",
             "jfa_enroll": "yz_jfa", "isv_enroll_array": "z_isv", "jfa_enroll_array": "yz_jfa"}
+USES = {"isv_score": ["isv", "z_isv"], "jfa_score": ["jfa", "yz_jfa"],
+        "isv_score_array": ["isv", "z_isv"], "jfa_score_array": ["jfa", "yz_jfa"]}
+
+
+def _used(pool, opname):
+    slots = USES.get(opname) or ([NEEDS[opname]] if NEEDS.get(opname) else [])
+    return [obj_digest(pool.models.get(s)) for s in slots]
+
+
 SCRIBBLE_TARGETS = ["X0", "X1", "stat", "init_c", "prior_means", "prior_variances",
                     "prior_weights", "y0", "ubm_means"]
 
@@ -377,6 +386,7 @@ def _call(pool, o, rec, label):
         return r, r
     if name in ("isv_enroll_array", "jfa_enroll_array"):
         m = pool.models[name[:3]]
+        m.enroll_iterations = o["it"]
         r = m.enroll_using_array(X)
         return r, r
     if name in ("isv_score", "jfa_score", "isv_score_array", "jfa_score_array"):
@@ -499,9 +509,8 @@ def run_case(case, replay=None):
             if j not in results:
                 continue
             o2 = case["ops"][j]
-            need = NEEDS.get(o2["op"])
-            if need is not None and results[j][2] != obj_digest(pool.models.get(need)):
-                continue  # the model it used has been retrained since
+            if results[j][2] != _used(pool, o2["op"]):
+                continue  # a model it used has been retrained since
             try:
                 with np.errstate(all="ignore"):
                     r, _m = _call(pool, o2, rec, f"op{i}")
@@ -523,7 +532,9 @@ def run_case(case, replay=None):
             need = NEEDS.get(name)
             if need is not None and need not in pool.models:
                 continue
-            used_model_digest = obj_digest(pool.models[need]) if need else None
+            if any(sl not in pool.models for sl in USES.get(name, [])):
+                continue
+            used_model_digest = _used(pool, name)
             models_before = pool.model_digests()
             try:
                 with np.errstate(all="ignore"):
